@@ -128,7 +128,7 @@ class C12Gen:
         fam = family or rng.choice(self.families)
         dep = state_dep and rng.random() < 0.4 and self.all
         loc = self.lin_expr() if dep else const(rng)
-        pos = lambda: num(rng.choice([1, 2, 3, Fraction(1, 2), Fraction(1, 4), 4]))
+        pos = lambda: num(rng.choice([1, 2, 3, Fraction(1, 2), Fraction(1, 4), 4, Fraction(3, 2), Fraction(3, 4), Fraction(5, 2), Fraction(3, 100)]))
         if fam == "Bernoulli":
             if self.probs and rng.random() < 0.5:
                 return ["draw", fam, [var(rng.choice(self.probs))]]
@@ -189,6 +189,14 @@ class C12Gen:
         for i in range(k):
             e = self.lin_expr() if rng.random() < 0.6 and self.all else const(rng)
             items.append([e, fstr(probs[i])])
+        if k >= 3 and rng.random() < 0.1:
+            # an alternative that is written down but never taken: probability 0 (not the last one), its mass goes to another
+            i = rng.randrange(k - 1)
+            j = rng.choice([x for x in range(k) if x != i])
+            probs[j] += probs[i]
+            probs[i] = Fraction(0)
+            for idx in range(k):
+                items[idx][1] = fstr(probs[idx])
         if rng.random() < 0.5:
             items[-1][1] = None
         if rng.random() < 0.12:
@@ -403,8 +411,14 @@ class C05Gen(C12Gen):
         if r < 0.2:
             return self.draw(rng.choice(["Categorical", "DiscreteUniform"]), False)
         if r < 0.4:
-            k = rng.choice([2, 2, 3])
+            k = rng.choice([2, 2, 3, 3, 4])
             probs = rand_probs(rng, k)
+            if k >= 3 and rng.random() < 0.25:
+                # an alternative with probability 0 (not the last one): written down, never taken
+                i0 = rng.randrange(k - 1)
+                j0 = rng.choice([x for x in range(k) if x != i0])
+                probs[j0] += probs[i0]
+                probs[i0] = Fraction(0)
             items = [[num(rng.choice([0, 1, 2, 3, -1, 5, Fraction(1, 2), Fraction(3, 2)])) if rng.random() < 0.7 else var(rng.choice(fin)), fstr(probs[i])] for i in range(k)]
             if rng.random() < 0.5:
                 items[-1][1] = None
